@@ -90,8 +90,9 @@ LEMMAS = {
                   'sum gamma log a <= sum gamma log a\'  =>  sum_n log sum_k a <= sum_n log sum_k a\'; '
                   'pi = c / sum c maximises sum_k c_k log pi_k on the simplex   (all K, N)',
         assumptions=['each component update does not decrease its part of the expected complete-data log-likelihood: machine checked for the Gaussian '
-                     'components (lean/GaussMStep.lean) and for the cACG Tyler / MM step (lean/CacgMM.lean: cacg_mm_step); the Watson concentration '
-                     'equation (convexity of log 1F1, spline inverse) is cited, not machine checked']),
+                     'components (lean/GaussMStep.lean) and for the cACG Tyler / MM step (lean/CacgMM.lean: cacg_mm_step); Watson: '
+                     'lean/WatsonMStep.lean proves the step from a convex log-normaliser and the stationarity equation, and the convexity of every '
+                     'log-integral-exp; what stays cited is that 1F1 is that integral and that the spline inverse solves the equation']),
     'oracle': dict(
         file='lean/Oracle.lean', theorems=['perm_max_exists', 'euclidean_restores', 'multiply_restores', 'cos_restores', 'unique_maximiser'],
         statement='estimate rows e_k = r_{pi k} (a permutation of the reference rows), score S[k, j] = sim(r_k, e_j), sigma ANY maximiser of '
@@ -146,6 +147,18 @@ LEMMAS = {
                   'B1 = (D / G) sum_n gamma_n z_n z_n^H / (z_n^H B0^-1 z_n) does not decrease sum_n gamma_n (-D log z_n^H B^-1 z_n - log det B)',
         assumptions=['cACG M-step: the eigenvalue floor of the stored decomposition is not part of the Lean statement (B1 positive definite is a hypothesis); '
                      'the normalisation of the eigenvalues is covered by cacg_scale_invariant']),
+    'watson': dict(
+        file='lean/WatsonMStep.lean', theorems=['tangent_line_le', 'tangent_maximiser', 'tangent_maximiser_Ici', 'tangent_maximiser_Icc',
+                                                'watson_mstep_maximises', 'clipped_upper_maximiser', 'clipped_lower_maximiser',
+                                                'clipped_lower_maximiser_Ici', 'log_integral_exp_convex', 'eig_reconstruct_posDef',
+                                                'eig_reconstruct_isHermitian', 'eig_reconstruct_posSemidef', 'eigenvalue_floor_range'],
+        statement='A convex log-normaliser with A\'(kappa) = lam: (principal eigenvector, kappa) maximises kappa\' lam\' - A(kappa\') over all lam\' <= lam, '
+                  'kappa\' >= 0; the clipped concentrations 0 / max_concentration maximise over the allowed interval when the stationary point lies outside; '
+                  'kappa -> log integral exp(kappa t) d mu is convex for every probability measure and bounded statistic t (so every log-normaliser of this '
+                  'form is); U diag(d) U^H is Hermitian positive (semi)definite for unitary U and positive (non-negative) d; max-normalised and floored '
+                  'eigenvalues lie in [floor, 1] with maximum 1   (all D)',
+        assumptions=['Watson M-step: that log 1F1(1; D; kappa) + const IS the log-integral of exp(kappa |w^H z|^2) over the sphere (the normaliser '
+                     'identity of C07, not machine checked) and that the spline inverse solves A\'(kappa) = lam (checked natively, bounded)']),
     'logdet': dict(
         file='lean/LogDet.lean', theorems=['det_cholesky', 'log_det_cholesky'],
         statement='L lower triangular with positive diagonal  =>  log det(L L^T) = 2 sum_i log L_ii   (all dimensions)'),
@@ -306,6 +319,8 @@ SIMPLEX_USE = {
     'C05': ('lemma:normalisation-and-class-sums-commute-with-relabelling-for-every-K', ['normalise_perm_equivariant', 'sum_perm_invariant']),
     'C08': ('lemma:integer-saliency-is-repetition-for-every-N', ['saliency_repetition', 'saliency_repetition_vec']),
     'C09': ('lemma:weights-on-the-simplex-and-clipping-bound-for-every-K', ['weights_mean_simplex', 'clipped_sum_bound']),
+    'C09#watson': ('lemma:eigen-reconstruction-is-hermitian-positive-definite-floored-eigenvalues-in-range-for-every-D',
+                   ['eig_reconstruct_posDef', 'eig_reconstruct_isHermitian', 'eig_reconstruct_posSemidef', 'eigenvalue_floor_range']),
     'C14': ('lemma:permutations-preserve-sums-and-multisets-for-every-K', ['sum_perm_invariant', 'multiset_perm_invariant', 'mapping_injective_is_perm']),
     'C18': ('lemma:ratio-masks-lie-on-the-simplex-for-every-K', ['posterior_simplex']),
     'C19': ('lemma:reciprocal-sxr-identity', ['sxr_reciprocal_identity']),
@@ -328,4 +343,7 @@ def simplex_lemma_instances(prop):
     if prop in MISC_USE:
         func, ths = MISC_USE[prop]
         out.append(lemma_instance(prop, 'misc', func, ths))
+    if prop + '#watson' in SIMPLEX_USE:
+        func, ths = SIMPLEX_USE[prop + '#watson']
+        out.append(lemma_instance(prop, 'watson', func, ths))
     return out
